@@ -12,7 +12,7 @@ func vInRange(n proto.ChannelNumber) bool { return vAnd(n >= 0x4000, n <= 0x7FFF
 
 // Constructed pre-state (two real AddChannelBind calls from the real constructor), then an arbitrary third.
 //
-//verif:props=C08,C07,C01 bounds="all 2^16 channel numbers x3; IPv4/IPv6 peers with all ports; table of <=2 (quick) / <=3 (thorough) prior bindings built by real calls"
+//verif:props=C08,C07,C01 maxpaths=400000 bounds="all 2^16 channel numbers x3; IPv4/IPv6 peers with all ports; table of <=2 (quick) / <=3 (thorough) prior bindings built by real calls"
 func VerifHarness_C08_bind_step() {
 	a, _, _ := VNewAlloc(nil)
 	log := &VLogger{}
